@@ -400,6 +400,8 @@ Definition show_multi (use_redir : bool) (ps : list (nat * nat)) (m : list obj) 
   sjoin "," (map (fun q => let '(r, locals, tx, T) := q in
                            if use_redir then show_x (fqn_import_resolve_r (mkconf ps) (mkredir rd) 3 m r locals [] (s2l tx) T)
                            else show_x (lift_result (fqn_import_resolve (mkconf ps) m r locals [] (s2l tx) T))) qs).
+Definition show_redir (ps : list (nat * nat)) (m : list obj) (rd : list (nat * list nat)) (qs : list (nat * string * nat)) : string :=
+  "|" ++ sjoin "," (map (fun q => let '(r, tx, T) := q in show_x (fqn_resolve_r (mkconf ps) (mkredir rd) 3 m r (s2l tx) T)) qs).
 Open Scope nat_scope."""
 
 
@@ -619,6 +621,33 @@ def load_corpus():
     return out
 
 
+def owner_redir(dump):
+    """redirection used by the runner's FQN(scope_redirection_logic=...): package -> [its resolved owner class]"""
+    rd = {}
+    for i, o in enumerate(dump):
+        if o["cls"] == "Package":
+            for k, decl, cont, call, val in o["attrs"]:
+                if k == "owner" and val[0] == "o" and val[1] is not None:
+                    rd[i] = [val[1]]
+    return rd
+
+
+def redir_queries(r, c):
+    dump = c["dump"]
+    texts = set()
+    for p, (cl,) in c["redir"].items():
+        pn = [dump[x]["name"] for x in path_ids(dump, p)[:-1]][::-1]
+        kids = [dump[k]["name"] for k in d_children(dump, cl) + d_children(dump, p) if dump[k]["name"]]
+        for k in kids + c["pool"]:
+            texts.add(".".join(pn + [k]))
+            texts.add(".".join(pn[-1:] + [k]))
+            for k2 in r.sample(c["pool"], 1):
+                texts.add(".".join(pn[-1:] + [k, k2]))
+    texts |= {t for t, _ in r.sample(c["names"], min(12, len(c["names"])))}
+    refs = sorted(set(c["referrers"][:2] + list(c["redir"])[:1]))
+    return [[ref, t, r.weighted([("Class", 4), ("Elem", 4), ("Package", 2)])] for ref in refs for t in sorted(texts)]
+
+
 def queries_of(c):
     return [[r, t, T] for r in c["referrers"] for t, T in c["names"]]
 
@@ -718,6 +747,7 @@ def run(chk):
         return {"grammars": GRAMMARS, "classes": CLASSES, "user_classes": USER_CLASSES,
                 "cases": [{"gid": c["gid"], "text": c["text"], "queries": queries_of(c) if with_queries else [],
                            "py": c.get("py") if with_queries else None,
+                           "redir_queries": c.get("redir_queries", []) if with_queries else [],
                            "py_queries": [[r, t, T] for r in c["py_refs"] for t, T in c["py_names"]] if with_queries and c.get("py") else [],
                            "e2e": [{"text": p["text"], "holder": p["holder"], "attr": p["attr"], "index": p.get("index", 0)}
                                    for p in c.get("probes", [])] if with_queries else []} for c in chunk],
@@ -753,6 +783,10 @@ def run(chk):
             r = chk.rng.split("q%s" % c["idx"])
             c["referrers"], c["names"] = gen_queries(r, c, c["dump"], c["conf"], thorough)
             c["probes"] = gen_probes(r.split("p"), c, c["dump"], c["conf"], thorough)
+            if isinstance(c["idx"], int) and c["idx"] % 4 != 0:
+                c["redir"] = owner_redir(c["dump"])
+                if c["redir"]:
+                    c["redir_queries"] = redir_queries(r.split("rd"), c)
             if isinstance(c["idx"], int) and c["idx"] % 4 == 0 and c["gid"] in ("A", "B"):
                 c["py"], c["py_refs"], c["py_names"] = X.gen_py(r.split("py"), c, c["dump"])
         live.append(c)
@@ -775,6 +809,7 @@ def run(chk):
                 raise RuntimeError("the runner is not deterministic on %r" % c["text"])
             c["answers"], c["e2e_out"] = x["answers"], x["e2e"]
             c["py_dump"], c["py_answers"] = x.get("py_dump"), x.get("py_answers")
+            c["redir_answers"] = x.get("redir_answers")
             c["py_conf"] = {tuple(p) for p in x.get("py_conf") or []}
         for c, x in zip(mch, o[len(o) - len(mch):]):
             if x["world"] != c["out"]["world"] or x["locals"] != c["out"]["locals"]:
@@ -792,6 +827,11 @@ def run(chk):
         exprs.append(coq_case(c["py_dump"], c["py_conf"], c["py_refs_abs"], c["py_names"]))
     for c in mlive:
         exprs.append(X.coq_multi(c, c["out"], c["queries"]))
+    rcases = [c for c in live if c.get("redir_queries")]
+    for c in rcases:
+        rd = "; ".join("(%d, [%s])" % (k, ";".join("%d" % x for x in v)) for k, v in sorted(c["redir"].items()))
+        qs = "; ".join("(%d, %s, %d)" % (r, coq_s(t), CID[T]) for r, t, T in c["redir_queries"])
+        exprs.append("show_redir %s %s [%s] [%s]" % (coq_conf(c["conf"]), coq_tbl(c["dump"]), rd, qs))
     allx, defs = compress(exprs)
     # interleave so that the shards are balanced
     order = sorted(range(len(allx)), key=lambda i: (i % core.NPROC, i))
@@ -810,6 +850,23 @@ def run(chk):
     ph["coq_eval"] = round(time.time() - t0, 1)
     n_sens = 0
     eval_ext(chk, X, pycases, mlive, vals[len(live):], failures, disagreements)
+    for c, mv in zip(rcases, vals[len(live) + len(pycases) + len(mlive):]):
+        manswers = mv.split("|")[1].split(",") if mv is not None else [None] * len(c["redir_queries"])
+        chk.stat("trees queried with a scope_redirection_logic")
+        for (r, text, T), ia, ma in zip(c["redir_queries"], c["redir_answers"], manswers):
+            parts = text.split(".")
+            k, i, ends = X.spec_multi(c["dump"], c["conf"], {}, c["redir"], r, parts, T)
+            plain = spec(c["dump"], c["conf"], r, parts, T)[1]
+            want = "U" if not ends else "F%d" % ends[0]
+            chk.count(("redir", c["gid"], c["text"], r, text, T), nontrivial=ends != plain)
+            chk.stat("redirection queries: " + ("resolved only through a stand-in object" if ends and not plain else "resolved" if ends else "unknown"))
+            case = {"grammar": c["gid"], "text": c["text"], "referrer": r, "name": text, "target_class": T,
+                    "kind": "FQN(scope_redirection_logic: the owner class stands in for its package)"}
+            if ma is not None and ia != ma:
+                disagreements.append({"case": case, "impl": ia, "model": ma})
+            if (X.unique_multi(c["dump"], c["redir"], parts) and ia != want) or ia.startswith("E:") or ia == "P":
+                failures.append({"case": case, "impl": ia, "model": ma, "tags": [],
+                                 "what": "with redirection the provider answers %s for %r from object %d; chains over contained and stand-in objects give %s" % (ia, text, r, want)})
     for c, mv in zip(live, vals):
         dump, conf = c["dump"], c["conf"]
         uniq_all = all(unique_on(dump, [nm]) for nm in {o["name"] for o in dump if o["name"] is not None})
